@@ -12,6 +12,10 @@ One (V, c) pair in SHAPE_EVERY is tested a second time in another SHAPE (see SHA
 in a variable and tested later - with x left alone, rebound from a second parameter on some paths, or on all paths -,
 walrus, early return, conditional expression, while-test. There the object that reaches a branch may be the rebound one;
 clause (a) is applied to whatever object reaches the probe.
+Two more families of programs (run_cases): SEQUENCES of two conditions on one variable, the second tested inside each
+branch of the first (SeqCase: four probes), and COMPOSITE subjects `x.a[0]['k']` of depth 1-3 with an assignment to a
+prefix / the chain / a neighbour slot between the test and the read (CompCase); the value the subject has at the probe
+is judged against the type narrowed there.
 """
 from __future__ import annotations
 
@@ -50,7 +54,22 @@ RULE = (
     "that starts afterwards (for over a display / range / unknown iterable, while True, while <opaque>), walrus, early "
     "return, conditional expression, while-test; these are executed on (x, y, r) over inhabitants(V)^2 x {False, True} and the object "
     "that reaches a branch is judged against the type narrowed there. Non-trivial = narrowed type differs from V in some "
-    "branch or a branch is Never; distinct by (constructor set of V, condition kind, shape)."
+    "branch or a branch is Never; distinct by (constructor set of V, condition kind, shape). "
+    "Added with the third seeding round: (1) ordering comparisons against int/float constants on either side (`x > 0`, `0 < x`, "
+    "`x <= 1.5` ...; their positive branch is refined to Annotated[V, Gt/Ge/Lt/Le], judged by evaluating the bound), membership "
+    "in collections of tuples / lists, declared Annotated[...] types (Gt, Ge+Le, Lt, MinLen, MaxLen on int/float/str/tuple/list) "
+    "and a flag enumeration (whose instances include the empty and combined flags) as V; (2) SEQUENCES of two conditions on "
+    "the same variable: for every ordered pair of condition-kind families (a kind and its plain negation are one family) one "
+    "(V, c1, c2) per seed (4 in thorough; three times as many when c1 refines - ordering or len comparison - and c2 is a "
+    "membership test), the best of 6 candidates by the number of branch outcomes CPython produces over inhabitants(V), rendered "
+    "as `if c1: (if c2 / else) else: (if c2 / else)` with a probe in each of the four branches; (3) COMPOSITE subjects: the "
+    "narrowed expression is a chain of 1-3 links below a parameter - attribute of a small mutable class, list index, dict key, "
+    "pure and mixed chains (all 3^d link vectors in thorough) - whose leaf is declared V (8 unions); between the test and the "
+    "read, in both branches, nothing / the root / every interior prefix / the parent / the chain itself / the neighbour slot of "
+    "the last link (of every link in thorough) is assigned from a second parameter, by a plain, tuple-unpacking or for-target assignment or inside a nested "
+    "block that only some paths run (if / else / for / while / try / except bodies selected by a parameter r); executed on "
+    "inhabitants(V)^2 (x {False, True}) with freshly built objects, and whatever the chain evaluates to at the probe is judged "
+    "against the type pyanalyze holds for the chain there."
 )
 ASSUMPTIONS = [
     "CPython evaluates the condition; vp.ty.member judges membership over inhabitants(V) and the universe U",
@@ -60,9 +79,15 @@ ASSUMPTIONS = [
 ]
 FLOORS = {
     "quick": {"distinct_nontrivial": 300, "functions": 3000, "branch_observations": 15000, "widening_checks": 3000,
-              "shaped_functions": 1300, "rebound_object_observations": 20000, "class_tuple_functions": 1200},
+              "shaped_functions": 1300, "rebound_object_observations": 20000, "class_tuple_functions": 1200,
+              "seq_functions": 600, "seq_branch_observations": 3000, "seq_second_condition_on_refined_subject": 300,
+              "seq_membership_test_on_refined_subject_taken": 25, "composite_functions": 500,
+              "composite_branch_observations": 4500, "composite_depth3_interior_assignments": 30},
     "thorough": {"distinct_nontrivial": 500, "functions": 30000, "branch_observations": 150000,
-                 "shaped_functions": 2600, "rebound_object_observations": 40000, "class_tuple_functions": 2400},
+                 "shaped_functions": 2600, "rebound_object_observations": 40000, "class_tuple_functions": 2400,
+                 "seq_functions": 2600, "seq_branch_observations": 13000, "seq_second_condition_on_refined_subject": 1200,
+                 "seq_membership_test_on_refined_subject_taken": 110, "composite_functions": 4500,
+                 "composite_branch_observations": 40000, "composite_depth3_interior_assignments": 430},
 }
 BATCH = 60
 SHAPE_EVERY = 6  # one (V, condition) pair in SHAPE_EVERY is additionally tested in a non-direct shape
@@ -94,7 +119,7 @@ BASE_TYPES = [
     ty.TypeOf(F), ty.TypeOf(ty.Cls(complex)), ty.Union(ty.Cls(complex), NONE),
     ty.TypedDictT("TD1", {"a": (I, True), "b": (S, False)}),
     # added with the condition sequences: declared Annotated[...] types and a flag enumeration
-    ANNOTATED_TYPES[0], ANNOTATED_TYPES[1], ANNOTATED_TYPES[2], PERM, ty.Union(PERM, NONE),
+    ANNOTATED_TYPES[0], PERM,
 ]
 
 CLASSES = [("int", int), ("str", str), ("float", float), ("bool", bool), ("bytes", bytes), ("complex", complex), ("A", prelude.A),
@@ -771,12 +796,17 @@ SEQ_TYPES = [
 # declared types of the LEAF of a composite subject
 COMP_LEAVES = [
     ty.Union(I, NONE), ty.Union(I, S), ty.Union(A, NONE), ty.Union(COLOR, NONE), ty.Union(ty.Lit(1), ty.Lit(2)),
-    ty.Union(S, NONE), ty.Union(A, C), ty.Union(ty.List(I), NONE), ty.Union(BL, S), ty.Union(F, I),
+    ty.Union(S, NONE), ty.Union(ty.List(I), NONE), ty.Union(F, I),
 ]
 LINK_SRC = {"a": ".a", "l": "[0]", "d": "['k']"}
 SIBLING_SRC = {"a": ".s", "l": "[1]", "d": "['z']"}
 LINK_NAME = {"a": "attr", "l": "list", "d": "dict"}
-ASSIGN_FORMS = ["plain", "unpack", "for-target", "on-some-paths"]
+# how the prefix is assigned: unconditionally (three target syntaxes), or inside a nested block that only some paths
+# (selected by the parameter r) run through - the statements of REBINDS with the prefix as the target
+NESTED_FORMS = [f"nested-{rb}" for rb in ("if", "else", "for", "while", "try", "except")]
+ASSIGN_FORMS = ["plain", "plain", "unpack", "for-target"] + NESTED_FORMS
+STALE_AFTER_MERGE_KEY = ("composite|assignment-to-a-prefix-inside-a-nested-block-is-forgotten-at-the-merge-"
+                         "and-the-narrowing-of-the-longer-chain-survives")
 UNMIRRORED_KEY = "ordering-comparison|constant-on-the-left-refines-with-the-written-operator-instead-of-the-mirrored-one"
 FLAG_KEY = "enum-flag|failed-equality-expands-the-class-into-its-named-members-and-drops-combined-and-empty-flags"
 
@@ -828,8 +858,10 @@ class SeqCase:
                 f"    if {self.c1.src}:", f"        if {self.c2.src}:", "            return __probe(3, x)", "        else:", "            return __probe(2, x)",
                 "    else:", f"        if {self.c2.src}:", "            return __probe(1, x)", "        else:", "            return __probe(0, x)"]
 
+    fixed = None  # replay: the recorded inhabitant(s) instead of a fresh draw
+
     def calls(self, module, rng):
-        for it in inhab(self.v, rng, 10):
+        for it in ([self.fixed[0]] if self.fixed else inhab(self.v, rng, 10)):
             yield (it.obj,), it.src, [it]
 
     def allowed(self):
@@ -848,8 +880,9 @@ class SeqCase:
     def distinct(self):
         return (sorted(ty.kinds(self.v)), "seq", self.c1.kind, self.c2.kind)
 
-    def witness(self, obj_src):
-        return {"shape": "seq", "declared": ty.render(self.v, 0), "style": self.style, "c1": cond_wit(self.c1), "c2": cond_wit(self.c2), "obj": obj_src}
+    def witness(self, obj_src, leaves=(), args=()):
+        return {"shape": "seq", "declared": ty.render(self.v, 0), "style": self.style, "c1": cond_wit(self.c1), "c2": cond_wit(self.c2),
+                "obj": obj_src, "leaves": [it.src for it in leaves]}
 
 
 class CompCase:
@@ -860,6 +893,7 @@ class CompCase:
 
     shape = "composite"
     tags = (0, 1)
+    fixed = None  # replay: the recorded leaf objects [a, b] instead of a fresh draw
 
     def __init__(self, v: Ty, links: str, assign, form: str, c: Cond, style: int = 0):
         self.v, self.links, self.assign, self.form, self.c, self.style = v, links, assign, form, c, style
@@ -869,6 +903,19 @@ class CompCase:
         self.chain = "x" + "".join(LINK_SRC[k] for k in links)
         self.kind = prim_kinds(c.kind)
         self.cls_names = {}
+
+    def nested(self) -> bool:
+        return self.assign is not None and self.form.startswith("nested-")
+
+    def assigned_on(self, r) -> bool:
+        return self.assign is not None and (not self.nested() or r in rebinding_r("+rebind-" + self.form.partition("-")[2]))
+
+    def mechanism(self, value, args, leaves):
+        """Key of a loss whose mechanism the run itself exhibits, else None."""
+        if (self.nested() and self.assign[0] == "prefix" and self.assign[1] < self.depth and self.assigned_on(args[-1])
+                and value is leaves[1].obj):
+            return STALE_AFTER_MERGE_KEY
+        return None
 
     def role(self) -> str:
         if self.assign is None:
@@ -907,15 +954,15 @@ class CompCase:
         tgt, level = self.target()
         sig = f"def {name}(x: {root}"
         if tgt is not None:
-            sig += f", y: {self.level_ann(level, classes, header)}" + (", r: bool" if self.form == "on-some-paths" else "")
+            sig += f", y: {self.level_ann(level, classes, header)}" + (", r: bool" if self.nested() else "")
         if tgt is None:
             asg = []
         elif self.form == "unpack":
             asg = [f"{tgt}, _u = y, 0"]
         elif self.form == "for-target":
             asg = [f"for {tgt} in [y]:", "    pass"]
-        elif self.form == "on-some-paths":
-            asg = ["if r:", f"    {tgt} = y"]
+        elif self.nested():
+            asg = [l.replace("x = y", f"{tgt} = y") for l in REBINDS[self.form.partition("-")[2]]]
         else:
             asg = [f"{tgt} = y"]
         out = [sig + "):", f"    if {_subst(self.c.src, self.chain)}:"]
@@ -935,14 +982,15 @@ class CompCase:
         return mk(level)
 
     def calls(self, module, rng):
-        inh = inhab(self.v, rng, 6)
+        inh = inhab(self.v, rng, 5) if not self.fixed else None
         tgt, level = self.target()
-        for a in inh:
+        for a in (self.fixed[:1] if self.fixed else inh):
             if tgt is None:
                 yield (self.build(module, 0, a.obj),), f"<{self.chain} = {a.src}>", [a]
                 continue
-            for b in inh:
-                for r in ((False, True) if self.form == "on-some-paths" else (None,)):
+            for r in ((False, True) if self.nested() else (None,)):
+                # every replacement when the assignment is executed, one when the path skips it
+                for b in (self.fixed[1:2] if self.fixed else inh if r is None or self.assigned_on(r) else inh[:1]):
                     args = (self.build(module, 0, a.obj), self.build(module, level, b.obj)) + (() if r is None else (r,))
                     yield args, f"<{self.chain} = {a.src}>, <y holding {b.src}>" + ("" if r is None else f", {r}"), [a, b]
 
@@ -962,14 +1010,15 @@ class CompCase:
     def key_head(self) -> str:
         kinds = {LINK_NAME[k] for k in self.links}
         return (f"composite|depth{self.depth}|links:{kinds.pop() if len(kinds) == 1 else 'mixed'}|assign:{self.role()}"
-                f"{'' if self.assign is None else '|form:' + self.form}|{self.kind}")
+                f"{'' if self.assign is None else '|form:' + ('nested' if self.nested() else self.form)}|{self.kind}")
 
     def distinct(self):
         return (sorted(ty.kinds(self.v)), "composite", self.links, self.role(), self.form if self.assign else "", self.c.kind)
 
-    def witness(self, obj_src):
+    def witness(self, obj_src, leaves=(), args=()):
         return {"shape": "composite", "declared": ty.render(self.v, 0), "style": self.style, "links": self.links,
-                "assign": list(self.assign) if self.assign else None, "form": self.form, "c": cond_wit(self.c), "obj": obj_src}
+                "assign": list(self.assign) if self.assign else None, "form": self.form, "c": cond_wit(self.c), "obj": obj_src,
+                "leaves": [it.src for it in leaves]}
 
 
 def cond_wit(c: Cond) -> dict:
@@ -1010,7 +1059,11 @@ def dropped_flag(conds, o, t: Ty) -> bool:
     condition compares with a named member, and the narrowed type is made of named members only."""
     if not isinstance(o, enum.Flag) or o in list(type(o).__members__.values()):
         return False
-    if not any(isinstance(l, enum.Flag) for c in conds for l in c.eq_lits):
+    def tested_flags(t):
+        return [] if t is None else [x for a_ in t.args for x in tested_flags(a_)] if t.kind == "Union" else (
+            [t.extra.v] if t.kind == "Lit" and isinstance(t.extra.v, enum.Flag) else [])
+
+    if not any(isinstance(l, enum.Flag) for c in conds for l in tuple(c.eq_lits) + tuple(tested_flags(c.tested))):
         return False
     ms = t.args if t.kind == "Union" else (t,)
     return all(m.kind in ("Lit", "NoneT", "Never") for m in ms)
@@ -1030,7 +1083,10 @@ def subject_types_at_tests(fn: ast.FunctionDef, subject: str = "x") -> list:
     return out
 
 
-def case_lost_key(case, tag, o, t: Ty, mids) -> str:
+def case_lost_key(case, tag, o, t: Ty, mids, args=(), leaves=()) -> str:
+    special = case.mechanism(o, args, leaves) if case.shape == "composite" else None
+    if special is not None:
+        return special
     prims = set()
     for c in case.conds:
         prims |= set(prim_kinds(c.kind).split("+"))
@@ -1122,7 +1178,7 @@ def run_cases(ctx, cases) -> None:
                     elif m is False:
                         what = (f"{case.describe()}\nf({args_src}) reaches the branch {case.branch(tag)} with the subject = {value!r}, "
                                 f"but pyanalyze narrows it to {val} there")
-                        ctx.violation(case_lost_key(case, tag, value, t, mids), what, case.witness(args_src))
+                        ctx.violation(case_lost_key(case, tag, value, t, mids, args, leaves), what, case.witness(args_src, leaves, args))
             allowed = case.allowed()
             if allowed is not None:
                 for tag, (t, val) in sorted(narrowed.items()):
@@ -1154,16 +1210,27 @@ def run_cases(ctx, cases) -> None:
         ins.dispose()
 
 
+_NEGATED_KIND = {"ne": "eq", "ne-swapped": "eq-swapped", "is-not": "is", "is-not-swapped": "is-swapped", "len!=": "len==",
+                 "len-swapped!=": "len-swapped=="}
+
+
+def kind_family(kind: str) -> str:
+    """A condition kind and its plain negation are one family: a sequence function observes both branches of both of
+    its conditions, so `not isinstance` / `!=` / `is not` / `not in` first or second is the same function with the
+    branches swapped (the ordering and len comparisons stay apart: their refinements differ per operator)."""
+    kind = _NEGATED_KIND.get(kind, kind)
+    return kind[4:] if kind.startswith("not-") else kind
+
+
 def seq_work(ctx, conds) -> list:
     """One (V, c1, c2) per ordered pair of condition kinds (4 in thorough): of 6 candidates drawn for the pair, the one
     whose four branches are reached by the most inhabitants' outcomes."""
     by_kind = {}
     for c in conds:
         if c.src is not None and "(" not in c.kind:
-            by_kind.setdefault(c.kind, []).append(c)
+            by_kind.setdefault(kind_family(c.kind), []).append(c)
     kinds = sorted(by_kind)
     ns = helper_ns()
-    per_pair = ctx.pick(1, 4)
     work, idx = [], 0
     for k1 in kinds:
         for k2 in kinds:
@@ -1171,6 +1238,9 @@ def seq_work(ctx, conds) -> list:
             if not ctx.mine(idx):
                 continue
             rng = ctx.rng.__class__(f"C02-seq/{ctx.seed}/{k1}/{k2}")
+            # a first condition that REFINES the type (Annotated[..., Gt/Ge/Lt/Le/MinLen/MaxLen]) followed by a
+            # membership test is drawn three times as often
+            per_pair = ctx.pick(1, 4) * (3 if re.match(r"ord|len", k1) and k2.startswith("in") else 1)
             cands = []
             for _ in range(6 * per_pair):
                 c1, c2 = rng.choice(by_kind[k1]), rng.choice(by_kind[k2])
@@ -1179,7 +1249,7 @@ def seq_work(ctx, conds) -> list:
                     continue
                 v = rng.choice(vs)
                 outcomes = {(_holds(c1, it.obj, ns), _holds(c2, it.obj, ns)) for it in inhab(v, rng, 10)}
-                score = len({o for o in outcomes if None not in o})
+                score = len({o for o in outcomes if None not in o}) + (2 if (True, True) in outcomes else 0)
                 cands.append((-score, len(cands), v, c1, c2))
             if not cands:
                 ctx.count("seq_kind_pairs_without_common_type")
@@ -1199,12 +1269,14 @@ def link_vectors(rng, thorough: bool) -> list:
         allv = ["".join(p) for p in itertools.product("ald", repeat=d)]
         pure = [k * d for k in "ald"]
         mixed = [v for v in allv if v not in pure]
-        out += allv if thorough else pure + (rng.sample(mixed, 1 if d == 2 else 2) if mixed else [])
+        out += allv if thorough else pure + (rng.sample(mixed, 1) if mixed else [])
     return out
 
 
-def comp_assignments(depth: int) -> list:
-    return [None] + [("prefix", p) for p in range(depth + 1)] + [("sibling", j) for j in range(1, depth + 1)]
+def comp_assignments(depth: int, thorough: bool) -> list:
+    """nothing, every prefix (0 = the root ... depth = the chain itself), the neighbour slot of the last link (of every
+    link in thorough)."""
+    return [None] + [("prefix", p) for p in range(depth + 1)] + [("sibling", j) for j in range(1 if thorough else depth, depth + 1)]
 
 
 def comp_work(ctx, conds) -> list:
@@ -1218,11 +1290,11 @@ def comp_work(ctx, conds) -> list:
         # conditions that separate the inhabitants of the leaf type
         useful = [c for c in plain if applicable(v, c) and len({_holds(c, it.obj, ns) for it in inh} - {None}) == 2]
         for links in link_vectors(rng, thorough):
-            for assign in comp_assignments(len(links)):
-                for _ in range(ctx.pick(2, 6)):
+            for assign in comp_assignments(len(links), thorough):
+                for _ in range(ctx.pick(2, 4)):
                     idx += 1
                     c = rng.choice(useful)
-                    form = rng.choice(ASSIGN_FORMS + ["plain"])
+                    form = rng.choice(ASSIGN_FORMS)
                     if ctx.mine(idx):
                         work.append(CompCase(v, links, assign, form, c, idx % 2))
     return work
@@ -1293,6 +1365,8 @@ def replay(witness):
         else:
             case = CompCase(v, witness["links"], tuple(witness["assign"]) if witness.get("assign") else None, witness["form"],
                             find_cond(witness["c"]), witness.get("style", 0))
+        if witness.get("leaves"):
+            case.fixed = [universe.Item(src, eval(src, eval_ns())) for src in witness["leaves"]]
         run_cases(ctx, [case])
         for key, lst in ctx.violations.items():
             return key, lst[0]["what"]
